@@ -513,7 +513,7 @@ def one_history(acc, seed, tag, forced=None):
 
 # ---------------------------------------------------------------------------------------------
 # real dispatchers over loopback
-REAL_SCENARIOS = ["peer-close", "local-disconnect", "connect-refused", "stream-error-reconnect", "relogin", "quick-relogin", "failure"]
+REAL_SCENARIOS = ["peer-close", "local-disconnect", "connect-refused", "stream-error-reconnect", "relogin", "quick-relogin", "failure", "disconnect-before-select"]
 
 
 def real_case(acc, seed, tag, dispatcher_name, scenario):
@@ -599,7 +599,40 @@ def real_case(acc, seed, tag, dispatcher_name, scenario):
             return bad("c2s-lost", "stanzas written through the real dispatcher did not arrive")
         if srv.conns[0].srv.state == "error":
             return bad("c2s-corrupt", "server cannot decrypt the client's stream: %s" % srv.conns[0].srv.errors)
-        if scenario in ("peer-close", "relogin") or (scenario == "quick-relogin" and r.random() < 0.3):
+        if scenario == "disconnect-before-select":
+            # asyncore only: the application's disconnect() lands after the loop thread has collected its descriptors and before
+            # its select() (a thread switch in front of a blocking call)
+            import asyncore
+            real_mod = asyncore.select
+            gate, done, armed = threading.Event(), threading.Event(), [True]
+
+            def patched(rl, wl, el, t=None):
+                if armed[0] and threading.current_thread() is c.net_threads[0]:
+                    armed[0] = False
+                    gate.set()
+                    done.wait(5)
+                return real_mod.select(rl, wl, el, t)
+
+            class Mod(object):
+                select = staticmethod(patched)
+                error = real_mod.error
+
+                def __getattr__(self, n):
+                    return getattr(real_mod, n)
+            asyncore.select = Mod()
+            try:
+                if not gate.wait(5):
+                    acc.inconc("%s: the loop thread never reached select()" % tag)
+                    return False
+                c.app.disconnect()
+                done.set()
+                if not threads_done():
+                    return bad("netthread-hangs", "the network thread did not end after disconnect()")
+            finally:
+                done.set()
+                asyncore.select = real_mod
+            acc.count("real_disconnect_before_select")
+        elif scenario in ("peer-close", "relogin") or (scenario == "quick-relogin" and r.random() < 0.3):
             srv.close_conn(srv.conns[0])
         elif scenario in ("local-disconnect", "quick-relogin"):
             c.app.disconnect()
@@ -737,6 +770,8 @@ def run(spec, acc):
     patch_server()
     if spec["kind"] == "real":
         for sc in REAL_SCENARIOS:
+            if sc == "disconnect-before-select" and spec["dispatcher"] != "asyncore":
+                continue
             real_case(acc, spec["seed"], "real/%s/%d/%s" % (spec["dispatcher"], spec["rep"], sc), spec["dispatcher"], sc)
         acc.sample({"real_dispatcher": spec["dispatcher"], "scenarios": REAL_SCENARIOS})
         return
